@@ -1,6 +1,7 @@
 --------------------------------- MODULE TraceStaged ---------------------------------
 (* C09, the caller's side: an instrumented function `outer` starts a generator and advances it  *)
-(* step by step while its own variable `stage` goes 1, 2, 3 (harness/worlds/lifeworld.py).        *)
+(* step by step while its own variable `stage` goes (unassigned), 1, 2, 3 (lifeworld.py); the      *)
+(* generators are made before the first assignment; optionally one more level `top >` above.       *)
 (*   'outer(stage) > gen > a'    : every step of the generator reports the value of a it binds     *)
 (*                                 together with the caller's stage AT THAT STEP                  *)
 (*   'outer(stage=K) > gen > a'  : exactly the steps made while stage = K are reported           *)
@@ -13,8 +14,10 @@ Own(c, i) == Cardinality({j \in 1..i : c.stages[j][2] = c.stages[i][2]})       \
 AVal(c, i) == 99 + Own(c, i)
 Expected(c) ==
   IF c.form = "capture" THEN [i \in DOMAIN c.stages |-> <<c.stages[i][1], AVal(c, i)>>]
-  ELSE LET idx == SelectSeq([i \in DOMAIN c.stages |-> i], LAMBDA i : c.stages[i][1] = c.k)
-       IN [j \in DOMAIN idx |-> <<c.k, AVal(c, idx[j])>>]
+  \* a step made before the caller has assigned `stage` (stage 0) carries no stage, and a condition on a variable that is not
+  \* captured yet does not apply (C12)
+  ELSE LET idx == SelectSeq([i \in DOMAIN c.stages |-> i], LAMBDA i : c.stages[i][1] \in {0, c.k})
+       IN [j \in DOMAIN idx |-> <<c.stages[idx[j]][1], AVal(c, idx[j])>>]
 Verdicts(c) ==
   (IF c.outcome # "ok" THEN {"Outcome"} ELSE {}) \cup
   (IF c.outcome = "ok" /\ c.events # Expected(c)
